@@ -1,33 +1,55 @@
 import Tmv.Model.Light
+import Tmv.Lemmas.CommitVerify
 /-! Specification side of C09: the valid-step relation of the property statement, the hash-link
 step of backwards verification (the model's extension of the statement) and reachability from the
 trust root. Core Lean only. -/
 namespace Tmv.Light
 
+open CommitVerify in
+/-- "signed by more than two thirds of its own validator set" in C07's vocabulary: there are distinct
+positions of `b`'s validator set whose slots in `b`'s commit are flagged for-the-block and carry a
+signature valid under that validator's key over exactly this commit's canonical vote (chain id,
+height, round, block id, slot timestamp), with `3 · power > 2 · total` -/
+def SignedByOwn (sigOK : SigOK) (chain : Nat) (b : LightBlock) : Prop :=
+  ∃ picks : List Nat, picks.Nodup ∧
+    (∀ i ∈ picks, GoodPick sigOK b.vals.validators (chainStr chain) b.commit false (i, i)) ∧
+    3 * pickedPower b.vals.validators picks > 2 * sumPower b.vals.validators
+
+open CommitVerify in
+/-- "signed by more than `num/den` of the trusted set `tv`": distinct members of `tv` (found by the
+slot's address) each with a for-block slot of `b`'s commit validly signed under the member's key,
+with `power · den > total · num` -/
+def SignedByTrusted (sigOK : SigOK) (chain : Nat) (tv : ValSet) (b : LightBlock) (l : Fraction) : Prop :=
+  0 < l.den ∧
+  ∃ picks : List (Nat × Nat), (picks.map Prod.fst).Nodup ∧
+    (∀ p ∈ picks, GoodPick sigOK tv.validators (chainStr chain) b.commit true p) ∧
+    pickedPower tv.validators (picks.map Prod.fst) * l.den > sumPower tv.validators * l.num
+
 /-- One verification step of the statement, from trusted `a` to new `b` at local time `now`:
 `b` is well formed (on `a`'s chain, its validator set is the one its header commits to), later in
 height and time, not from the future, signed by more than two thirds of its own validator set, and
 either adjacent with matching next-validator hash or signed by more than the trust level of `a`'s
-set, all within the trusting period of `a`. -/
+set, all within the trusting period of `a`. The two signing clauses are the conclusions of C07's
+soundness theorems (`light_sound`, `trusting_sound`). -/
 def ValidStep (cfg : Config) (now : Int) (a b : LightBlock) : Prop :=
   b.hdr.basicOK = true ∧ b.commitOK = true ∧ b.hdr.chain = a.hdr.chain ∧
   b.hdr.valsHash = b.vals.hash ∧
   a.height < b.height ∧ a.time < b.time ∧ b.time < now + cfg.drift ∧
-  2 * b.vals.total < 3 * tally b.vals b.signers ∧
+  SignedByOwn cfg.sigOK a.hdr.chain b ∧
   ((b.height = a.height + 1 ∧ b.hdr.valsHash = a.hdr.nextValsHash) ∨
-   (b.height ≠ a.height + 1 ∧ 0 < cfg.level.den ∧
-      a.vals.total * cfg.level.num < tally a.vals b.signers * cfg.level.den)) ∧
+   (b.height ≠ a.height + 1 ∧ SignedByTrusted cfg.sigOK a.hdr.chain a.vals b cfg.level)) ∧
   now < a.time + cfg.period
 
 /-- backwards step: `b` is the (older) header whose hash `a` names as its last block -/
 def BackStep (a b : LightBlock) : Prop :=
   b.hdr.basicOK = true ∧ b.hdr.chain = a.hdr.chain ∧ b.time < a.time ∧ b.hash = a.hdr.lastBlockHash
 
-/-- Headers the client may trust: the trust root (the header whose hash the user supplied), closed
+/-- Headers the client may trust: the trust roots (`root h` = the user supplied the hash `h` as trust
+option in some (re)start of the client), closed
 under valid forward steps, backward hash links, and re-labelling by header hash (a light block whose
 header has the hash of a trusted header carries that trusted header). -/
-inductive Reach (cfg : Config) (root : Hash) : LightBlock → Prop
-  | root (b : LightBlock) : b.hash = root → Reach cfg root b
+inductive Reach (cfg : Config) (root : Hash → Prop) : LightBlock → Prop
+  | root (b : LightBlock) : root b.hash → Reach cfg root b
   | fwd (a b : LightBlock) (now : Int) : Reach cfg root a → ValidStep cfg now a b → Reach cfg root b
   | back (a b : LightBlock) : Reach cfg root a → BackStep a b → Reach cfg root b
   | same (a b : LightBlock) : Reach cfg root a → b.hash = a.hash → Reach cfg root b
